@@ -22,6 +22,65 @@ pub struct Opt {
 pub trait Scheduler: Send {
     /// called only when there are at least two options
     fn choose(&mut self, menu: &[Opt]) -> usize;
+    /// a restrictive scheduler is consulted at every step (even with a single option) and may
+    /// refuse to schedule anything: the execution is then handed back to the controller
+    fn restrictive(&self) -> bool {
+        false
+    }
+    fn choose_opt(&mut self, menu: &[Opt]) -> Option<usize> {
+        Some(self.choose(menu))
+    }
+}
+
+/// what the controller currently allows to happen (directed execution: one specification action
+/// at a time, see harness/common/src/walk.rs)
+#[derive(Default, Clone, Debug)]
+pub struct Allow {
+    /// library threads may run (and their timers may expire)
+    pub lib: bool,
+    /// environment threads that may run
+    pub env: std::collections::HashSet<usize>,
+    /// the waiter a notify_one must pick (None: there must be no choice to make)
+    pub waiter: Option<usize>,
+    /// a notify_one found several waiters and none of them was the designated one
+    pub waiter_mismatch: bool,
+}
+
+pub struct AllowSched {
+    pub allow: std::sync::Arc<std::sync::Mutex<Allow>>,
+}
+
+impl Scheduler for AllowSched {
+    fn choose(&mut self, menu: &[Opt]) -> usize {
+        self.choose_opt(menu).unwrap_or(0)
+    }
+    fn restrictive(&self) -> bool {
+        true
+    }
+    fn choose_opt(&mut self, menu: &[Opt]) -> Option<usize> {
+        let mut a = self.allow.lock().unwrap();
+        if menu[0].kind == OptKind::Waiter {
+            if menu.iter().all(|o| o.lib) {
+                // library-internal condvar (the worker pool): any waiter will do
+                return Some(0);
+            }
+            if let Some(w) = a.waiter {
+                if let Some(i) = menu.iter().position(|o| o.tid == w) {
+                    return Some(i);
+                }
+            }
+            a.waiter_mismatch = true;
+            return Some(0);
+        }
+        for (i, o) in menu.iter().enumerate() {
+            let ok = if o.lib { a.lib } else { a.env.contains(&o.tid) };
+            // timers of environment threads are fired by explicit directives only
+            if ok && (o.kind == OptKind::Run || o.lib) {
+                return Some(i);
+            }
+        }
+        None
+    }
 }
 
 pub struct XorShift(pub u64);
